@@ -240,14 +240,34 @@ def r19_4(ctx):
         where = f.site
         if len(inner) == 1:
             where = f.loc(inner[0].line)
-            for p in inner[0].iteration_paths(s):
+            its = list(inner[0].iteration_paths(s))
+            # the hit may be recorded in a flag that decides the verdict after the scan
+            flag = None
+            if not any(sets_loop(p) for p in its):
+                flags = {e[1] for p in its for e in p.events if e[0] == "set" and e[3] == ("const", True)}
+                if len(flags) == 1:
+                    flag = next(iter(flags))
+                    n_fl = 0
+                    starts = {inner[0].exit} | {p.end[1] for p in its if p.end[0] == "stop" and p.end[1] not in (inner[0].next_block, inner[0].head())}
+                    stops_ = {outer[0].next_block, outer[0].head()} | outer[0].tail_blocks() if outer else set()
+                    after = [p for st_ in sorted(starts) for p in s.paths(start=st_, stops=stops_)]
+                    for p in after:
+                        for a, v in p.conds:
+                            if a == ("local", flag):
+                                n_fl += 1
+                                if sets_loop(p) != (v == 1):
+                                    verdict_bad.append("the scan flag is %s but the Loop verdict is %s" % (bool(v), "set" if sets_loop(p) else "not set"))
+                    if n_fl == 0:
+                        verdict_bad.append("the scan flag is never tested after the scan")
+            for p in its:
                 u = m = None
                 for a, v in p.conds:
                     if is_eq(a, "url"):
                         u = bool(v)
                     if is_eq(a, "method"):
                         m = bool(v)
-                rows.setdefault((u, m), set()).add(sets_loop(p))
+                hit = sets_loop(p) if flag is None else any(e[0] == "set" and e[1] == flag and e[3] == ("const", True) for e in p.events)
+                rows.setdefault((u, m), set()).add(hit)
         elif not inner and outer:
             # the scan written as hops.iter().any(|previous| ..): the closure is the predicate, its
             # result decides the Loop verdict
